@@ -80,7 +80,7 @@ func randBody(r *vh.Rng, method string, response bool) interface{} {
 			e.L = []int32{int32(r.Intn(300)), -1}
 		}
 		// keep strings printable so that json text equals what encoding the same value again gives
-		e.S = fmt.Sprintf("%x", e.S)
+		e.S = fmt.Sprintf("%x", e.S) + escText(r, r.Intn(6))
 		return e
 	case "S.Add":
 		if response {
@@ -88,7 +88,7 @@ func randBody(r *vh.Rng, method string, response bool) interface{} {
 		}
 		return AddArgs{int64(r.Intn(1000)), -int64(r.Intn(1 << 40))}
 	case "S.Str":
-		return fmt.Sprintf("s%x", r.Bytes(r.Intn(10)))
+		return fmt.Sprintf("s%x", r.Bytes(r.Intn(10))) + escText(r, r.Intn(8))
 	default: // S.Fail
 		if response {
 			return int(0)
@@ -114,6 +114,17 @@ func bodyPtr(method string, response bool) interface{} {
 		}
 		return new(string)
 	}
+}
+
+// escText: text whose json encoding needs escapes (the json decoder unescapes into a scratch
+// buffer; what it hands out must not keep pointing into it)
+func escText(r *vh.Rng, n int) string {
+	parts := []string{"\t", "\"", "\n", "\\", "é", "a", "Z", "7", " ", "/"}
+	var sb strings.Builder
+	for i := 0; i < n; i++ {
+		sb.WriteString(parts[r.Intn(len(parts))])
+	}
+	return sb.String()
 }
 
 var unitMethods = []string{"S.Echo", "S.Add", "S.Str", "S.Fail"}
@@ -203,7 +214,7 @@ func unitStream(r *vh.Rng, n int, casesPath string, sum *vh.Summary) {
 			}
 			f.body = randBody(r, m, response)
 			if response && (m == "S.Fail" || r.Chance(1, 8)) {
-				f.errstr = fmt.Sprintf("fail:%d", r.Intn(100))
+				f.errstr = fmt.Sprintf("fail:%d", r.Intn(100)) + escText(r, r.Intn(4))
 				f.body = invalidRequest{}
 			}
 			frames[j] = f
@@ -332,6 +343,24 @@ func unitStream(r *vh.Rng, n int, casesPath string, sum *vh.Summary) {
 				}
 				done <- g
 			}()
+			// everything decoded is looked at again after the LAST message was read: a value
+			// handed out earlier must not change when the Decoder goes on
+			type lateCheck struct {
+				got  func() string
+				want string
+			}
+			var late []lateCheck
+			defer func() {
+				if g.bad != "" {
+					return
+				}
+				for _, lc := range late {
+					if lc.got() != lc.want {
+						g.bad = "a value decoded earlier on the connection changed while later messages were read"
+						return
+					}
+				}
+			}()
 			bySeq := map[uint64]int{}
 			for j, f := range frames {
 				bySeq[f.seq] = j
@@ -357,6 +386,8 @@ func unitStream(r *vh.Rng, n int, casesPath string, sum *vh.Summary) {
 							g.bad = "the error string of a response differs from what was written"
 							return
 						}
+						es := hd.Error
+						late = append(late, lateCheck{func() string { return es }, f.errstr})
 					} else {
 						bp := bodyPtr(f.method, true)
 						if err := cc.ReadResponseBody(bp); err != nil {
@@ -366,6 +397,7 @@ func unitStream(r *vh.Rng, n int, casesPath string, sum *vh.Summary) {
 							g.bad = "the body of a response differs from what was written"
 							return
 						}
+						late = append(late, lateCheck{func() string { return vh.Canon(reflect.ValueOf(bp).Elem().Interface()) }, vh.Canon(f.body)})
 					}
 					if name != "spec" && hd.ServiceMethod != f.method {
 						g.bad = "the method of a response differs from what was written"
@@ -394,6 +426,7 @@ func unitStream(r *vh.Rng, n int, casesPath string, sum *vh.Summary) {
 						g.bad = "the method or body of a request differs from what was written"
 						return
 					}
+					late = append(late, lateCheck{func() string { return vh.Canon(reflect.ValueOf(bp).Elem().Interface()) }, vh.Canon(f.body)})
 					g.ids = append(g.ids, id)
 				}
 			}
